@@ -56,10 +56,15 @@ def sort_key(rec):
     return (tid, rec.get('pos', -1))
 
 
-def write_bam(path, refs, recs, sort=True, index=True, header_extra=None):
+def write_bam(path, refs, recs, sort=True, index=True, header_extra=None, tie_rng=None):
+    """tie_rng: the order among records of equal coordinate is not defined by a coordinate sort - with a random generator the ties are
+    broken at random (mates at one position may come in either order, copies of a molecule in any order)"""
     header = make_header(refs, header_extra)
     if sort:
-        recs = sorted(recs, key=sort_key)  # stable: keeps generation order among ties
+        if tie_rng is not None:
+            recs = list(recs)
+            tie_rng.shuffle(recs)
+        recs = sorted(recs, key=sort_key)  # stable: keeps generation (or the shuffled) order among ties
     with pysam.AlignmentFile(path, 'wb', header=header) as f:
         for r in recs:
             f.write(make_seg(header, r))
